@@ -249,6 +249,116 @@ func evalServer(r *mc.Run, c Case) {
 	r.State(mc.Hash("server", outcome, c.Origin))
 }
 
+// ---- server side: options a session's own peer may set, then the server serves it ---------
+
+type serveCase struct {
+	Side     string `json:"side"` // "server-serve"
+	FragSize uint32 `json:"frag_size"`
+	Lazy     bool   `json:"lazy"`
+	Multi    bool   `json:"multi"`
+}
+
+var serveFragSizes = []uint32{0, 1, 2, 3, 81, 82, 200, 1200, 65535, 1 << 31, 1<<32 - 1}
+
+func serveCases() []serveCase {
+	var out []serveCase
+	for _, fs := range serveFragSizes {
+		for _, lazy := range []bool{false, true} {
+			for _, multi := range []bool{false, true} {
+				out = append(out, serveCase{"server-serve", fs, lazy, multi})
+			}
+		}
+	}
+	return out
+}
+
+// evalServe: a peer opens a session, sets options through a well-formed set-options query (any
+// field value), and then the server application writes three bytes into that session and the
+// peer polls: whatever the options were, the server must neither loop nor allocate without
+// bound, must answer the poll, and the other established session must stay untouched.
+func evalServe(r *mc.Run, idx int, c serveCase) {
+	r.Eval(1)
+	r.Transition(4)
+	setup()
+	if setupErr != nil {
+		r.Inconclusive("setup: " + setupErr.Error())
+		return
+	}
+	desc := fmt.Sprintf("set-options downstream fragment size %d lazy=%v multi=%v, then the server writes 3 bytes", c.FragSize, c.Lazy, c.Multi)
+	// (a fresh address per case: a version request is refused with BADCONN while slot 0 holds a
+	// closed session of the SAME address, and the enumerated queries may have closed it)
+	peer := &net.UDPAddr{IP: net.IPv4(10, 1, 2, byte(1+idx%200)), Port: 5000 + idx%50000}
+	id, err := hello(peer)
+	if err != nil {
+		r.Inconclusive("hello: " + err.Error())
+		return
+	}
+	before := listener.VerifUser(liveID, false)
+	ser := commands.Serializer{Domain: domain, Upstream: util.UpstreamConfig{Encoder: enc.Base32Encoding}}
+	fs := c.FragSize
+	req := &commands.SetOptionsRequest{UserId: id, DownstreamFragmentSize: &fs}
+	if c.Lazy {
+		req.LazyMode = &c.Lazy
+	}
+	if c.Multi {
+		req.MultiQuery = &c.Multi
+	}
+	m, err := ser.EncodeDnsRequestWithParams(req, util.QueryTypeNull, enc.Base32Encoding)
+	if err != nil {
+		r.State(mc.Hash("serve", "unencodable", c))
+		return
+	}
+	_, pan := deliver(m, peer)
+	if pan != "" {
+		r.Fail("server-panic|"+panicSite(pan), desc+": set-options handler panicked: "+strings.SplitN(pan, "\n", 2)[0], int(c.FragSize%1000), c)
+		return
+	}
+	conn := listener.VerifUserConn(id)
+	outcome := "served"
+	if conn != nil {
+		var ms runtime.MemStats
+		runtime.ReadMemStats(&ms)
+		alloc0 := ms.TotalAlloc
+		go conn.Write([]byte("abc"))
+		for i := 0; i < 50; i++ {
+			time.Sleep(time.Millisecond)
+			runtime.ReadMemStats(&ms)
+			if ms.TotalAlloc-alloc0 > 4<<20 { // queueing three bytes costs a few hundred bytes
+				r.Fail("server-unbounded-allocation|serve-after-options", fmt.Sprintf("%s: the write allocated %d MiB within %d ms and is still going (OutQueue.Write never finishes cutting the data into fragments)", desc, (ms.TotalAlloc-alloc0)>>20, i+1), int(c.FragSize%1000), c)
+				r.State(mc.Hash("serve", "runaway", c.FragSize))
+				r.Bail(idx) // the looping goroutine cannot be stopped
+			}
+		}
+		// the peer polls: the answer must exist and be packable
+		poll, _ := ser.EncodeDnsRequestWithParams(&commands.PacketRequest{UserId: id, LastAckedSeqNo: 0xFFFF}, util.QueryTypeNull, enc.Base32Encoding)
+		runtime.ReadMemStats(&ms)
+		alloc1 := ms.TotalAlloc
+		fw, pan := deliver(poll, peer)
+		runtime.ReadMemStats(&ms)
+		switch {
+		case pan != "":
+			outcome = "panic"
+			r.Fail("server-panic|"+panicSite(pan), desc+": the poll after it panicked: "+strings.SplitN(pan, "\n", 2)[0], int(c.FragSize%1000), c)
+		case ms.TotalAlloc-alloc1 > 64<<20:
+			outcome = "alloc"
+			r.Fail("server-unbounded-allocation|poll-after-options", fmt.Sprintf("%s: answering the poll allocated %d MiB", desc, (ms.TotalAlloc-alloc1)>>20), int(c.FragSize%1000), c)
+		case len(fw.msgs) == 0:
+			outcome = "poll-ignored"
+		}
+	} else {
+		outcome = "no-session"
+	}
+	if after := listener.VerifUser(liveID, false); after != before {
+		r.Fail("server-session-disturbed|serve-after-options", fmt.Sprintf("%s: the OTHER established session #%d changed from %s to %s", desc, liveID, before, after), int(c.FragSize%1000), c)
+	}
+	// end the session through the protocol
+	t := true
+	cm, _ := ser.EncodeDnsRequestWithParams(&commands.SetOptionsRequest{UserId: id, Closed: &t}, util.QueryTypeNull, enc.Base32Encoding)
+	deliver(cm, peer)
+	r.State(mc.Hash("serve", outcome, c.FragSize))
+	r.Nontrivial(mc.Hash(fmt.Sprintf("%+v", c)))
+}
+
 // ---- client side -------------------------------------------------------------------------
 
 func rrHdr(name string, t uint16) dns.RR_Header {
@@ -568,6 +678,12 @@ func TestCheck(t *testing.T) {
 			}
 			return
 		}
+		if c.Side == "server-serve" {
+			var sc serveCase
+			r.DecodeReplay(&sc)
+			evalServe(r, 0, sc)
+			return
+		}
 		evalServer(r, c)
 		return
 	}
@@ -609,6 +725,12 @@ func TestCheck(t *testing.T) {
 			}
 			idx++
 		}
+	}
+	for _, sc := range serveCases() {
+		if r.Mine(idx) {
+			evalServe(r, idx, sc)
+		}
+		idx++
 	}
 	r.Note("server_messages", len(all))
 	r.Note("client_answer_sections", len(specs)*len(clientCodecs))
